@@ -175,6 +175,19 @@ CHECKS = [
            'foreign entry anywhere, sub-model (ids, other properties, edges between kept nodes, nothing new), every kept interface '
            'keeps link, peer, owning service and its owner, all stitch nodes present, aggregate untouched, re-keying changes only the key.',
       note='Two fixed model shapes; extra kept nodes are allowed by the statement. Only the in-memory backend (as the property states).'),
+ dict(property_id='C14', engine='E1-bfs', level='model_checking',
+      technique='model checking: explicit-state BFS over merge/unmerge/snapshot/rollback histories, reference-union oracle in every state',
+      text='Families of 2-4 generated delegation models (two sites with workers and a stitch switch, a network model joining the two '
+           'sites over their shared uplink ports, a second network model on another shared uplink; each produced by generate_adms from a '
+           'substrate model) are merged into and unmerged from a combined model in every order, with snapshot and rollback interleaved, '
+           'to depth 6 (3 models, 7 thorough) / 4 (4 models, 8 thorough). The merge/unmerge functions are those of Neo4jCBMGraph, run '
+           'on the in-memory shared store by composition. After every step the combined graph must equal the reference union of the '
+           'currently merged set (nodes, contributor sets, delegations keyed by contributing model id, edges, other properties) - hence '
+           'order-independence and merge/unmerge and snapshot/rollback inversion - every source model must be unchanged and no temporary '
+           'graph or cross-graph edge may remain.',
+      note='Trusted base: the class composition (one name substituted in the neo4j_cbm module namespace) and the reference union (~40 '
+           'lines). Neo4j/APOC node-merge semantics are represented by the in-memory merge_nodes (C05). Domain restriction: one model '
+           'speaks per shared element, other properties agree.'),
 ]
 _claimed = {c['property_id'] for c in CHECKS}
 NOT_APPLICABLE = [dict(property_id=p, reason='check not built yet in this revision (work in progress; model checking applies, see DESIGN.md)')
